@@ -59,7 +59,7 @@ def read_tree(root: str) -> Dict[str, str]:
 def run_child(cwd: str, argv: List[str], targets: List[str], hashseed: int = 0, enum_seed: Optional[int] = None,
               clock: Optional[float] = None, env: Optional[Dict[str, str]] = None, env_unset: Optional[List[str]] = None,
               fault: Optional[dict] = None, http: Optional[dict] = None, timeout: int = 90,
-              pre_runs: Optional[List[dict]] = None) -> Dict[str, Any]:
+              pre_runs: Optional[List[dict]] = None, proc_env: Optional[Dict[str, str]] = None) -> Dict[str, Any]:
     fd, job_path = tempfile.mkstemp(prefix="job-", suffix=".json", dir=cwd)
     os.close(fd)
     out_path = job_path + ".out"
@@ -69,6 +69,9 @@ def run_child(cwd: str, argv: List[str], targets: List[str], hashseed: int = 0, 
         json.dump(job, f)
     penv = dict(os.environ, PYTHONHASHSEED=str(hashseed), PYTHONDONTWRITEBYTECODE="1")
     penv.pop("VERIF_SEED", None)
+    if proc_env:
+        # what must be in place when the interpreter starts (locale, UTF-8 mode)
+        penv.update(proc_env)
     try:
         try:
             p = subprocess.run([PY, CHILD, job_path], capture_output=True, text=True, env=penv, timeout=timeout, cwd=cwd)
@@ -88,6 +91,14 @@ def run_child(cwd: str, argv: List[str], targets: List[str], hashseed: int = 0, 
                 os.unlink(q)
             except OSError:
                 pass
+
+
+# locale / text-encoding environments of the generating process (the same inputs must give the same files in all of them)
+LOCALE_ENVS = [None,
+               {"LC_ALL": "C", "LANG": "C", "PYTHONUTF8": "0", "PYTHONCOERCECLOCALE": "0"},
+               {"LC_ALL": "POSIX", "LANG": "POSIX", "PYTHONUTF8": "0", "PYTHONCOERCECLOCALE": "0"},
+               {"PYTHONUTF8": "1", "LC_ALL": "C"},
+               {"LC_ALL": "C.UTF-8", "LANG": "C.UTF-8"}]
 
 
 def rmtree(path):
